@@ -307,6 +307,12 @@ func runCheck(repo, verif, id, tier string, writeLedger bool) int {
 				continue
 			}
 			verdict, detail := e.Replay(o, replayPath)
+			if o.Kind == "ground" {
+				detail = o.Model
+				if len(detail) > 600 {
+					detail = detail[:600] + "..."
+				}
+			}
 			wasProved := inLedger && ledRes == "unsat"
 			switch {
 			case verdict == "confirmed":
